@@ -24,7 +24,7 @@ states from which some word is accepted; `DFA.mem_coaccessible_iff_live` is the 
 reading).  The correctness of the refinement loop (`hopcroft_nerode`, Proofs/Hopcroft.lean)
 and of the quotient (Proofs/MinQuotient.lean) are combined in Proofs/MinifyCorrect.lean.
 -/
-import AutomataVerif.Proofs.MinifyCorrect
+import AutomataVerif.Proofs.MinifyExpand
 import AutomataVerif.Model.Convert
 
 namespace AV.Props.C05
@@ -210,91 +210,114 @@ Every other caller hands `_minify` either the pre-pass of a table (`to_partial`,
 `complement`) or all states of a DFA freshly built by `_expand_dfa` (`union`, …,
 `from_nfa`), all of whose states are reachable. -/
 
-/-- **`to_partial(minify=True)`** of a valid DFA: valid, same language, and — whatever the
-kind of the result — states duplicate-free, reachable and pairwise distinguishable; a
-partial result has no dead state and at most as many states as any valid DFA with the same
-language has live states; a complete result is minimal among complete DFAs. -/
+/-- `R` is a valid DFA for the language `L`, with the fewest states a DFA of its own kind
+can have: if `R` is partial, every state of `R` is live and every valid DFA for `L` has at
+least `|R|` live states; if `R` is complete, every valid complete DFA for `L` over an
+alphabet containing `syms` has at least `|R|` states. -/
+def MinimalFor {ρ : Type} [DecidableEq ρ] (R : AV.DFA ρ α) (L : List α → Bool) (syms : List α) :
+    Prop :=
+  R.validate = .ok () ∧ (∀ w, R.accepts w = L w) ∧
+  (R.allowPartial = true →
+    (∀ n ∈ R.states, ∃ w, R.isFinal (R.run (some n) w) = true) ∧
+    ∀ (τ : Type) [DecidableEq τ] (B : AV.DFA τ α), B.validate = .ok () →
+      (∀ w, B.accepts w = L w) → R.states.length ≤ B.liveStates.length) ∧
+  (R.allowPartial = false →
+    ∀ (τ : Type) [DecidableEq τ] (B : AV.DFA τ α), B.validate = .ok () → B.allowPartial = false →
+      (∀ a ∈ syms, a ∈ B.syms) → (∀ w, B.accepts w = L w) → R.states.length ≤ B.states.length)
+
+/-- `_minify` applied to any source that describes a DFA `d` (Proofs/MinifyCorrect.lean)
+returns a minimal DFA of its kind for `d`'s language. -/
+theorem minimalFor_of_source {d : AV.DFA σ α} {kept finals : List σ}
+    (S : MinSource d kept finals) (pick : List Nat → Nat) :
+    MinimalFor (minifyCore kept d.syms d.trans d.init finals pick) d.accepts d.syms :=
+  ⟨S.valid pick, fun w => S.accepts pick w,
+   fun hp => ⟨S.live pick hp, fun _ _ B hB hl =>
+     S.minimal_partial pick hp B ((validate_eq_ok B).mp hB) hl⟩,
+   fun hp _ _ B hB hBc hs hl =>
+     S.minimal_complete pick hp B ((validate_eq_ok B).mp hB) hBc hs hl B.states fun _ h => h⟩
+
+/-- Summary for `minify` itself in the same vocabulary. -/
+theorem C05_minify_minimalFor (d : AV.DFA σ α) (hv : d.validate = .ok ()) (ps : d.PyShape)
+    (pick : List Nat → Nat) : MinimalFor (d.minify pick) d.accepts d.syms :=
+  minimalFor_of_source (minify_source ((validate_eq_ok d).mp hv) ps) pick
+
+/-- **`to_partial(minify=True)`** of a valid DFA (partial or complete) is a valid DFA with the
+same language and the fewest states of its kind. -/
 theorem C05_toPartialMin (d : AV.DFA σ α) (hv : d.validate = .ok ()) (ps : d.PyShape)
-    (pick : List Nat → Nat) :
-    (d.toPartialMin pick).validate = .ok () ∧
-    (∀ w, (d.toPartialMin pick).accepts w = d.accepts w) ∧
-    ((d.toPartialMin pick).allowPartial = true →
-      (∀ n ∈ (d.toPartialMin pick).states, (d.toPartialMin pick).Live n) ∧
-      ∀ (B : AV.DFA τ α), B.validate = .ok () → (∀ w, B.accepts w = d.accepts w) →
-        (d.toPartialMin pick).states.length ≤ B.liveStates.length) ∧
-    ((d.toPartialMin pick).allowPartial = false →
-      ∀ (B : AV.DFA τ α), B.validate = .ok () → B.allowPartial = false →
-        (∀ a ∈ d.syms, a ∈ B.syms) → (∀ w, B.accepts w = d.accepts w) →
-        (d.toPartialMin pick).states.length ≤ B.states.length) := by
+    (pick : List Nat → Nat) : MinimalFor (d.toPartialMin pick) d.accepts d.syms := by
   have wf := (validate_eq_ok d).mp hv
   have wf' : ({ d with allowPartial := true } : AV.DFA σ α).WF :=
     ⟨wf.rows, fun h => (by cases h), wf.symsOk, wf.tgtOk, wf.initOk, wf.finalsOk⟩
   have ps' : ({ d with allowPartial := true } : AV.DFA σ α).PyShape :=
     ⟨ps.states_nodup, ps.syms_nodup, ps.finals_nodup, ps.keys_nodup, ps.rows_nodup⟩
-  have S := minify_source wf' ps'
   rw [toPartialMin_eq]
-  refine ⟨S.valid pick, fun w => S.accepts pick w, fun hp => ⟨S.live pick hp, fun B hB hl => ?_⟩,
-    fun hp B hB hBc hs hl => ?_⟩
-  · exact S.minimal_partial pick hp B ((validate_eq_ok B).mp hB) hl
-  · exact S.minimal_complete pick hp B ((validate_eq_ok B).mp hB) hBc hs hl B.states fun _ h => h
+  exact minimalFor_of_source (minify_source wf' ps') pick
 
-/-- **`complement(minify=True)`** of a valid complete DFA: valid, accepts exactly what the
-plain complement accepts (C04 says that is the complement language), and is a minimal
-complete DFA for it. -/
+/-- **`complement(minify=True)`** of a valid complete DFA: a valid complete DFA that accepts
+exactly what the plain complement accepts (C04 says that is the complement language), with
+the fewest states of any complete DFA for it. -/
 theorem C05_complementMin (c : AV.DFA σ α) (hv : c.validate = .ok ()) (hc : c.allowPartial = false)
     (ps : c.PyShape) (pick : List Nat → Nat) :
-    (c.complementMin pick).validate = .ok () ∧
-    (∀ w, (c.complementMin pick).accepts w = c.complementPlain.accepts w) ∧
-    (c.complementMin pick).allowPartial = false ∧
-    ∀ (B : AV.DFA τ α), B.validate = .ok () → B.allowPartial = false →
-      (∀ a ∈ c.syms, a ∈ B.syms) → (∀ w, B.accepts w = c.complementPlain.accepts w) →
-      (c.complementMin pick).states.length ≤ B.states.length := by
+    MinimalFor (c.complementMin pick) c.complementPlain.accepts c.syms ∧
+    (c.complementMin pick).allowPartial = false := by
   have wf := (validate_eq_ok c).mp hv
   have S := complementMin_source wf hc ps
-  have hcomp : (c.complementMin pick).allowPartial = false := by
-    rw [complementMin_eq]
-    exact S.complete_of_noTrap pick (minify_noTrap_of_complete (complementPlain_wf wf hc) rfl)
-  refine ⟨?_, ?_, hcomp, fun B hB hBc hs hl => ?_⟩
-  · rw [complementMin_eq]; exact S.valid pick
-  · intro w; rw [complementMin_eq]; exact S.accepts pick w
-  · rw [complementMin_eq] at hcomp ⊢
-    exact S.minimal_complete pick hcomp B ((validate_eq_ok B).mp hB) hBc hs hl B.states fun _ h => h
+  rw [complementMin_eq]
+  exact ⟨minimalFor_of_source S pick,
+    S.complete_of_noTrap pick (minify_noTrap_of_complete (complementPlain_wf wf hc) rfl)⟩
 
-/-- **`_expand_dfa(..., minify=True)`** (`union`, `intersection`, `difference`,
-`symmetric_difference`, `from_nfa`): if the expanded DFA `P` is valid, of Python shape and
-all its states are reachable (what `_expand_dfa` builds; Proofs/Expand.lean), then
-`_minify` applied to all of `P` is valid, accepts `P`'s language and is minimal of its kind. -/
-theorem C05_minify_of_expanded (P : AV.DFA σ α) (hv : P.validate = .ok ()) (ps : P.PyShape)
+/-- **`_minify` on a trim DFA**: if `P` is valid, of Python shape and all its states are
+reachable, `_minify` applied to all of `P` is minimal of its kind for `P`'s language. -/
+theorem C05_minify_of_trim (P : AV.DFA σ α) (hv : P.validate = .ok ()) (ps : P.PyShape)
     (hreach : ∀ q ∈ P.states, ∃ w, P.run (some P.init) w = some q) (pick : List Nat → Nat) :
-    let R := minifyCore P.states P.syms P.trans P.init P.finals pick
-    R.validate = .ok () ∧ (∀ w, R.accepts w = P.accepts w) ∧
-    (R.allowPartial = true →
-      (∀ n ∈ R.states, R.Live n) ∧
-      ∀ (B : AV.DFA τ α), B.validate = .ok () → (∀ w, B.accepts w = P.accepts w) →
-        R.states.length ≤ B.liveStates.length) ∧
-    (R.allowPartial = false →
-      ∀ (B : AV.DFA τ α), B.validate = .ok () → B.allowPartial = false →
-        (∀ a ∈ P.syms, a ∈ B.syms) → (∀ w, B.accepts w = P.accepts w) →
-        R.states.length ≤ B.states.length) := by
-  have S := minSource_of_trim ((validate_eq_ok P).mp hv) ps hreach
-  refine ⟨S.valid pick, fun w => S.accepts pick w, fun hp => ⟨S.live pick hp, fun B hB hl => ?_⟩,
-    fun hp B hB hBc hs hl => ?_⟩
-  · exact S.minimal_partial pick hp B ((validate_eq_ok B).mp hB) hl
-  · exact S.minimal_complete pick hp B ((validate_eq_ok B).mp hB) hBc hs hl B.states fun _ h => h
+    MinimalFor (minifyCore P.states P.syms P.trans P.init P.finals pick) P.accepts P.syms :=
+  minimalFor_of_source (minSource_of_trim ((validate_eq_ok P).mp hv) ps hreach) pick
 
-/-- `A.op(B, minify=True)` is `_minify` applied to all states of `A.op(B, minify=False)`. -/
-theorem C05_binopMin_eq (op : BinOp) (A B : AV.DFA σ α) (pick : List Nat → Nat)
-    (R : AV.DFA (MinName (PState σ)) α) (h : binopMin op A B pick = .ok R) :
-    ∃ P, binopPlain op A B = .ok P ∧ R = minifyCore P.states P.syms P.trans P.init P.finals pick := by
-  unfold binopMin at h
-  cases hP : binopPlain op A B with
-  | error e => rw [hP] at h; cases h
-  | ok P => rw [hP] at h; cases h; exact ⟨P, rfl, rfl⟩
+/-- **`_expand_dfa(..., minify=True)`**: whenever the BFS of `_expand_dfa` is exhaustive
+(`ExpandHyp`: a finite closed universe, duplicate-free rows, enough fuel) and the expansion
+function only uses alphabet symbols, the minified result is minimal of its kind for the
+language of the un-minified result `P`. -/
+theorem C05_expandMin {S : Type} [DecidableEq S] (succ : S → List (α × S)) (isFin : S → Bool)
+    (syms : List α) (fuel : Nat) (init : S) (univ : List S)
+    (h : ExpandHyp succ univ fuel init) (hsyms : syms.Nodup)
+    (hkeys : ∀ u ∈ univ, ∀ a ∈ akeys (succ u), a ∈ syms) (pick : List Nat → Nat) :
+    MinimalFor
+      (minifyCore (expand succ isFin syms fuel init).states syms
+        (expand succ isFin syms fuel init).trans init (expand succ isFin syms fuel init).finals pick)
+      (expand succ isFin syms fuel init).accepts syms :=
+  minimalFor_of_source (expand_minSource isFin syms h hsyms hkeys) pick
 
-/-- `DFA.from_nfa(n, minify=True)` is `_minify` applied to all states of the subset construction. -/
-theorem C05_toDFAMin_eq (n : AV.NFA σ α) (pick : List Nat → Nat) :
-    n.toDFAMin pick =
-      minifyCore n.toDFA.states n.toDFA.syms n.toDFA.trans n.toDFA.init n.toDFA.finals pick := rfl
+/-- **`A.op(B, minify=True)`** for `op` ∈ {union, intersection, difference, symmetric
+difference}, valid operands over a common alphabet, every mix of partial and complete
+operands: the call succeeds and returns a valid DFA that accepts exactly what
+`A.op(B, minify=False)` accepts (C04 says that is the set operation on the languages), with
+the fewest states of its kind. -/
+theorem C05_binopMin (op : BinOp) (A B : AV.DFA σ α) (hA : A.validate = .ok ())
+    (hB : B.validate = .ok ()) (pA : A.PyShape) (hs : A.symsEq B = true) (pick : List Nat → Nat) :
+    ∃ P R, binopPlain op A B = .ok P ∧ binopMin op A B pick = .ok R ∧
+      MinimalFor R P.accepts A.syms := by
+  obtain ⟨P, hP, hsy, S⟩ := binopPlain_minSource op A B ((validate_eq_ok A).mp hA)
+    ((validate_eq_ok B).mp hB) pA hs
+  refine ⟨P, minifyCore P.states P.syms P.trans P.init P.finals pick, hP, ?_, ?_⟩
+  · simp [binopMin, hP]
+  · rw [← hsy]; exact minimalFor_of_source S pick
+
+/-- The full claim for `DFA.from_nfa(n, minify=True)`: for every valid NFA of Python shape the
+result is minimal of its kind for the language of `DFA.from_nfa(n, minify=False)`.  Proved
+below up to the exhaustiveness of the subset construction's BFS, which belongs to C07. -/
+def C05_toDFAMin_full (σ α : Type) [DecidableEq σ] [DecidableEq α] : Prop :=
+  ∀ (n : AV.NFA σ α), n.validate = .ok () → n.PyShape → ∀ pick : List Nat → Nat,
+    MinimalFor (n.toDFAMin pick) n.toDFA.accepts n.syms
+
+/-- **`DFA.from_nfa(n, minify=True)`**: whenever the subset construction's BFS is exhaustive
+(`ExpandHyp`, to be supplied by the proof of C07), the result is minimal of its kind for the
+language of `DFA.from_nfa(n, minify=False)`. -/
+theorem C05_toDFAMin_partial (n : AV.NFA σ α) (univ : List (List σ))
+    (h : ExpandHyp n.subsetSucc univ (2 ^ n.states.length + 1) (n.canon (n.closure n.init)))
+    (hsyms : n.syms.Nodup) (hkeys : ∀ u ∈ univ, ∀ a ∈ akeys (n.subsetSucc u), a ∈ n.syms)
+    (pick : List Nat → Nat) :
+    MinimalFor (n.toDFAMin pick) n.toDFA.accepts n.syms :=
+  minimalFor_of_source (expand_minSource n.subsetFinal n.syms h hsyms hkeys) pick
 
 /-! ## Non-vacuity -/
 
@@ -337,6 +360,16 @@ def exDead : AV.DFA Nat Nat :=
 
 example : exDead.validate = .ok () := rfl
 example : exDead.minify.states = [MinName.zero] ∧ exDead.minify.allowPartial = false := by decide
+
+/-- `minify=True` paths on the same inputs: the union of `exF1` with itself again has the
+three classes; `to_partial(minify=True)` of the complete example drops nothing (no dead state)
+and stays complete; the complement of the complete example has two states. -/
+example : (match binopMin .union exF1 exF1 with
+    | .ok R => (R.states.length, R.allowPartial)
+    | .error _ => (0, false)) = (3, true) := by decide
+example : exF1.symsEq exF1 = true := by decide
+example : (exComplete.toPartialMin).states.length = 2 ∧ (exComplete.complementMin).states.length = 2 := by
+  decide
 
 /-- The unrestricted naming claim fails (F16): the exception in `C05_retain_names_partial`
 is necessary. -/
